@@ -40,7 +40,8 @@ theorem entry_saveSer (s0 : State) (o : Obj) :
   cases he : s0.entry o.res with
   | some e0 =>
     simp only
-    exact ⟨{ e0 with contents := (s0.root o).toBase }, entry_setEntry _ _ _, rfl⟩
+    exact ⟨{ e0 with contents := (s0.root o).toBase, hash := if e0.fmeta.isNone then .leaf .null else e0.hash },
+      entry_setEntry _ _ _, rfl⟩
   | none =>
     simp only
     have hinit : (initEntrySer s0 o).entry o.res =
